@@ -14,6 +14,7 @@
 //!   c02knob <prog> <config> <strategy> = <1|0> # ..  strategy on the HONEST witness (1 = as expected)
 //!   c02skip <prog> <config> = <n> # ..          corruptions that leave the circuit satisfied
 //!   cpp <max_degree n nums.. dens.. m partials.. z_x z_gx> = <terms|panic>   (Model/C02Run.v replays)
+//!   plonkverify <common, verifier-only, proof dump> = <1|0>   a few adversarial proofs, replayed by the Gallina verifier (Model/Plonk.v)
 use std::collections::HashMap;
 use std::io::Write;
 use std::panic::{catch_unwind, AssertUnwindSafe};
@@ -279,7 +280,13 @@ pub fn strategy_knobs(s: &str, r: &mut Rng, num_challenges: usize) -> AdversaryK
 
 /// Run the prover with the knobs on this partition witness; returns "prove-err", "prove-panic", "rejected",
 /// "verify-panic" or "ACCEPTED" plus a detail string.
-pub fn adversarial_prove(circ: &Circ, part: PartitionWitness<F>, cor: &Corruption, mut k: AdversaryKnobs) -> (String, String) {
+pub fn adversarial_prove(circ: &Circ, part: PartitionWitness<F>, cor: &Corruption, k: AdversaryKnobs) -> (String, String) {
+    let (a, b, _) = adversarial_prove_full(circ, part, cor, k);
+    (a, b)
+}
+
+/// as `adversarial_prove`, also handing back the proof the prover emitted (if any)
+pub fn adversarial_prove_full(circ: &Circ, part: PartitionWitness<F>, cor: &Corruption, mut k: AdversaryKnobs) -> (String, String, Option<Pwpi>) {
     for (i, c) in cor.cells.iter().enumerate() { k.override_cells[i] = Some(*c); }
     verif_knobs::set(k);
     let r = catch_unwind(AssertUnwindSafe(|| {
@@ -287,14 +294,24 @@ pub fn adversarial_prove(circ: &Circ, part: PartitionWitness<F>, cor: &Corruptio
     }));
     verif_knobs::reset();
     match r {
-        Err(_) => ("prove-panic".into(), panic_site()),
-        Ok(Err(e)) => ("prove-err".into(), e.to_string().chars().take(60).map(|c| if c == ' ' { '_' } else { c }).collect()),
-        Ok(Ok(proof)) => match verdict(&circ.data, proof) {
-            "ok" => ("ACCEPTED".into(), String::new()),
-            "err" => ("rejected".into(), String::new()),
-            _ => ("verify-panic".into(), panic_site()),
+        Err(_) => ("prove-panic".into(), panic_site(), None),
+        Ok(Err(e)) => ("prove-err".into(), e.to_string().chars().take(60).map(|c| if c == ' ' { '_' } else { c }).collect(), None),
+        Ok(Ok(proof)) => match verdict(&circ.data, proof.clone()) {
+            "ok" => ("ACCEPTED".into(), String::new(), Some(proof)),
+            "err" => ("rejected".into(), String::new(), Some(proof)),
+            _ => ("verify-panic".into(), panic_site(), None),
         },
     }
+}
+
+/// `plonkverify` line for the Gallina verifier (Model/Plonk.v): the same proof must get the same verdict there
+pub fn dump_for_model(w: &mut dyn Write, circ: &Circ, proof: &Pwpi, accepted: bool) -> usize {
+    let mut o = vec![];
+    if dump_common(&mut o, &circ.data.common).is_err() { return 0; }
+    dump_verifier_only(&mut o, &circ.data.verifier_only);
+    dump_proof(&mut o, proof);
+    writeln!(w, "{}", line("plonkverify", &o, if accepted { "1" } else { "0" })).unwrap();
+    1
 }
 
 pub fn extra_configs() -> Vec<(&'static str, CircuitConfig)> {
@@ -329,6 +346,7 @@ struct Ctx<'a> {
     skipped: usize,
     skipped_classes: HashMap<String, usize>,
     lines: usize,
+    dumps_left: usize,
 }
 
 impl<'a> Ctx<'a> {
@@ -359,11 +377,18 @@ impl<'a> Ctx<'a> {
         };
         for s in strategies {
             let k = strategy_knobs(s, r, nch);
-            let (out, det) = adversarial_prove(self.circ, part.clone(), cor, k);
+            let (out, det, proof) = adversarial_prove_full(self.circ, part.clone(), cor, k);
             let ok = (out != "ACCEPTED") as u8;
             writeln!(w, "c02 {} {} {} {} = {} # {} violated={} outcome={} {} knobs=z1:{:?},q:{:?},pow:{:?}", self.pi, self.cname, class, s, ok,
                      cor.describe(), viol, out, det, k.z_first_override, k.quotient_perturb, k.pow_witness_override).unwrap();
             self.lines += 1;
+            // a few of the emitted proofs (small circuits) are also replayed by the Gallina verifier
+            if let Some(pr) = proof {
+                if self.dumps_left > 0 && self.circ.data.common.degree_bits() <= 5 && self.case_no % 7 == 0 {
+                    self.dumps_left -= 1;
+                    self.lines += dump_for_model(w, self.circ, &pr, out == "ACCEPTED");
+                }
+            }
         }
         true
     }
@@ -429,7 +454,8 @@ pub fn run_program(w: &mut dyn Write, r: &mut Rng, pi: usize, cname: &str, cfg: 
 
     let thorough = tier == "thorough";
     let mut cx = Ctx { circ: &circ, p, m0: m0.clone(), pis0: pis0.clone(), pi, cname, strategies: STRATEGIES.to_vec(),
-                       all_strategies: thorough, case_no: r.below(5) as usize, skipped: 0, skipped_classes: HashMap::new(), lines: 0 };
+                       all_strategies: thorough, case_no: r.below(5) as usize, skipped: 0, skipped_classes: HashMap::new(), lines: 0,
+                       dumps_left: if thorough { 6 } else { 2 } };
 
     // ---- per gate type: input / output (routed) / intermediate (advice) wires
     let ngates = circ.data.common.gates.len();
@@ -547,10 +573,13 @@ pub fn run_program(w: &mut dyn Write, r: &mut Rng, pi: usize, cname: &str, cfg: 
         if let Ok((part, m, pis)) = corrupted_assignment(&circ, p, &cor) {
             if let Some(v) = circ.violation_after(&m0, &pis0, &m, &pis) {
                 // only meaningful when nothing but the lookup relation is violated
-                let (out, det) = adversarial_prove(&circ, part, &cor, k);
+                let (out, det, proof) = adversarial_prove_full(&circ, part, &cor, k);
                 writeln!(w, "c02 {pi} {cname} lookup-out-variable sldc-shift = {} # {} violated={} outcome={} {}", (out != "ACCEPTED") as u8,
                          cor.describe(), v, out, det).unwrap();
                 cx.lines += 1;
+                if let Some(pr) = proof {
+                    if kk == 0 && circ.data.common.degree_bits() <= 5 { cx.lines += dump_for_model(w, &circ, &pr, out == "ACCEPTED"); }
+                }
             }
         }
     }
@@ -597,7 +626,8 @@ fn cpp_cases(w: &mut dyn Write, r: &mut Rng, count: usize) -> usize {
 }
 
 pub fn run(seed: u64, tier: &str, w: &mut dyn Write) -> usize {
-    let mut r = Rng::new(seed ^ 0xC02);
+    // Rng::new(s) and Rng::new(s + d) are the same splitmix stream shifted by d draws: decorrelate by forking
+    let mut r = Rng::new(seed ^ 0xC02).fork();
     let thorough = tier == "thorough";
     let mut n = cpp_cases(w, &mut r, if thorough { 4000 } else { 400 });
     let cfgs = configs();
@@ -616,6 +646,8 @@ pub fn run(seed: u64, tier: &str, w: &mut dyn Write) -> usize {
         plan.push(("qdf7", ex[0].1.clone(), 7, 40));
         plan.push(("std_small", by("std_small"), 17, 12));
         plan.push(("qdf12_rate4", ex[1].1.clone(), 19, 30));
+        plan.push(("std_small", by("std_small"), 31, 100));
+        plan.push(("arity1_cap0", by("arity1_cap0"), 15, 140));
     }
     for (pi, (cname, cfg, kinds, size)) in plan.iter().enumerate() {
         let p = gen_program(&mut r, *size, *kinds);
